@@ -24,6 +24,7 @@ type world struct {
 	// [as][version]: version 0 = original, 1.. = re-issued (same subject, new key and serial)
 	sens, reg, root [nAS][]*pc
 	noIASens, noIAReg   *pc
+	twinSens, twinReg   [3]*pc // sensitive + regular voter with the SAME subject DN (distinct keys, serials)
 	noIATight           [2]*pc // sens, reg voters WITHOUT ISD-AS, valid exactly [sec(0), sec(5000)]
 	noIAShort           [2]*pc // sens, reg voters WITHOUT ISD-AS, valid [sec(100), sec(4000)] only
 	otherISD            [3]*pc // sens, reg, root of ISD 2
@@ -65,6 +66,10 @@ func newWorld(r *vlib.Rand) *world {
 		t = wide(kk, "", "short-lived voter without ia")
 		t.nb, t.na = sec(100), sec(4000)
 		w.noIAShort[k] = w.add(mkCert(t))
+	}
+	for i := range w.twinSens {
+		w.twinSens[i] = w.add(mkCert(wide(kSens, iaStr(1, i), iaStr(1, i)+" voter")))
+		w.twinReg[i] = w.add(mkCert(wide(kReg, iaStr(1, i), iaStr(1, i)+" voter")))
 	}
 	w.otherISD[0] = w.add(mkCert(wide(kSens, iaStr(2, 0), "sensitive")))
 	w.otherISD[1] = w.add(mkCert(wide(kReg, iaStr(2, 0), "regular")))
@@ -156,6 +161,12 @@ func (w *world) validBase() *payload {
 		} else {
 			nr++
 		}
+	}
+	if w.r.Chance(12) { // subjects are unique per class only: a sensitive and a regular voter may share a DN
+		i := w.r.Intn(len(w.twinSens))
+		certs = append(certs, w.twinSens[i].Cert, w.twinReg[i].Cert)
+		ns++
+		nr++
 	}
 	if w.r.Chance(70) {
 		w.shuffle(certs)
